@@ -167,7 +167,7 @@ func init() {
 	vrt.AuxCmds["c16"] = c16Aux
 	vrt.Register(&vrt.Prop{
 		ID: "C16", Level: "fault_enumeration",
-		Rule: "six configurations (whole-circuit with CO, COT, COT-malicious on generated 2-3-output circuits; streaming with CO) each have a clean run that fixes the two direction lengths (identical randomness in every session of a configuration); then one session per fault: thorough = EVERY byte offset of both directions with a byte replacement, plus a bit flip and a 2-64 byte random burst at sampled offsets; quick = a PRNG subset. " +
+		Rule: "six configurations (whole-circuit with CO, COT, COT-malicious on generated 2-3-output circuits; streaming with CO) each have a clean run that fixes the two direction lengths (identical randomness in every session of a configuration); then one session per fault: thorough = EVERY byte offset of both directions with a byte replacement, plus a 2-64 byte random burst at sampled offsets and single-bit flips (all 8 bits of every byte for the CO configurations, one sampled bit at every 5th offset for the OT-extension ones); quick = a PRNG subset plus a low-bit flip at every offset of the last 160 bytes of the garbler's stream. " +
 			"Oracle: garbler err == nil implies its result equals the reference evaluation; outcome classes {error, stalled-and-aborted (0.3 s quiescence window), success, garbler-panic} are counted. Non-trivial = the fault landed inside the transcript; distinct = (configuration, direction, offset, kind).",
 		Assumptions: []string{"faults are random replacements in transit, not structured rewrites by an active attacker", "a stall is recognised after 0.3 s of quiescence of both endpoints; it is an allowed outcome"},
 		NumCases: func(t string) int {
@@ -234,7 +234,13 @@ func runC16(cs *vrt.Case) {
 				d, off = 1, p-cfg.len[0]
 			}
 			faults = append(faults, fault{d, off, "byte", []byte{nz()}})
-			if p%5 == 0 {
+			if cfg.ot == 0 {
+				// the short transcripts (no OT extension): every single-bit
+				// fault of every byte
+				for b := uint(0); b < 8; b++ {
+					faults = append(faults, fault{d, off, "bitflip", []byte{1 << b}})
+				}
+			} else if p%5 == 0 {
 				faults = append(faults, fault{d, off, "bitflip", []byte{1 << uint(r.Intn(8))}})
 			}
 			if p%11 == 0 {
@@ -257,6 +263,19 @@ func runC16(cs *vrt.Case) {
 			default:
 				faults = append(faults, fault{d, off, "burst", burst()})
 			}
+		}
+	}
+	if !cs.Thorough() {
+		// the tail of the garbler's stream carries the output decoding
+		// data (result wire ids, result values): low-bit flips there turn a
+		// valid field into a neighbouring valid one. Offsets are split over
+		// the parts so that a quick run covers every offset of the tail.
+		tail := cfg.len[0] - 160
+		if tail < 0 {
+			tail = 0
+		}
+		for off := tail + int64(part); off < cfg.len[0]; off += int64(per) {
+			faults = append(faults, fault{0, off, "bitflip", []byte{1 << uint(r.Intn(3))}})
 		}
 	}
 	self, _ := os.Executable()
